@@ -205,10 +205,10 @@ ROUND7 = {
  "C10": ("nested same-list loop rule with input-governed length", " R10.9: a loop over a list nested in a loop over the same list, where the list holds an entry per notice line of the input (D49, repaired). Shared R03.11, R08.1."),
  "C11": ("unconditional case folding behind the first rune", " R11.12: a rune behind the first one of a word is lower-cased whether or not the text is being normalised. Shared R08.4/R08.5/R08.8. R11.5/R11.9/R11.11 are decided over the write sites of Normalize and of the helpers it calls."),
  "C13": ("injectivity lint for built map keys, dominating-fact rule between exact scan and token search, no-transformation rule for the normalised text", " R13.10: no map key is built from run-time parts that run together. R13.11: the token search runs only where the exact scan found nothing. R13.12: the normalised text is handed on as it is."),
- "C14": ("no package-level channel in the concurrent region; channel cells in the effect engine", " R14.11: no spawned goroutine sends to or receives from a package-level channel. The effect engine summarises a channel like the elements of a slice."),
+ "C14": ("no package-level channel in the concurrent region; channel cells in the effect engine", " R14.11: no spawned goroutine sends to or receives from a package-level channel. R14.12: what goroutines send back through a channel is not kept in the order of arrival. The effect engine summarises a channel like the elements of a slice."),
  "C15": ("control-dependence rule for archive entries, base-name provenance of entry names, no-store rule for loaded search sets", " R15.12: the loader stores into no field of a search set it read. R15.13: between the loop over the files and the writing of an entry stand only error tests, the extension test and loop heads. R15.14: the Name of every tar header derives from filepath.Base."),
  "C16": ("", " Shared R13.8 (the classifier keeps its own copy of the normaliser list) and R15.3 (loading an archive writes no package-level state)."),
- "C17": ("side-provenance rule by search-set parameter, first-key rule for every sort of match ranges", " R17.8: no Target* bound is computed from the source set alone, nor a Src* bound from the target set. R17.9: every sort of match ranges has TargetStart ascending as its first key."),
+ "C17": ("side-provenance rule by search-set parameter, first-key rule for every sort of match ranges", " R17.8: no Target* bound is computed from the source set alone, nor a Src* bound from the target set. R17.9: every sort of match ranges has TargetStart ascending as its first key. Shared R14.12 (no result collected in completion order)."),
  "C18": ("text-independence of ChunkIterator's branches, CFG-shape rule for the end-of-line exit of string literals, evaluated quote table", " R18.16: no branch of ChunkIterator depends on a comment's text. R18.17: the code behind `c == newline` under a chain of language tests is entered from that test alone. R18.18: the apostrophe is no quote in the Lisp and Verilog families (D50)."),
  "C19": ("defer/exit ordering rule, file-name provenance of classification texts, grouping rule for anchored patterns", " R19.13: no deferred Flush in front of a process exit. R19.14: every source of a classification's Text is handed that classification's file name. R19.15: a pattern anchored by concatenation is grouped."),
  "C20": ("uniform-treatment rule for mutators, argument-only guard rule for Union", " R20.10: what Insert/Delete do with an element does not stand behind a test inside the loop over the elements. R20.11: the loop that copies the argument's elements into a union is guarded by tests on the argument only."),
